@@ -868,6 +868,21 @@ static void plan_c15(void)
                     char **arr = place_ptrs(&s, (int[]){0}, 1, GP_END); vh_op("liberasurecode_verify_stripe_metadata");
                     liberasurecode_verify_stripe_metadata(s.desc, arr, 1);
                 }
+                /* fragment_len smaller than a header, with buffers that really are that short and end at a PROT_NONE page */
+                { static const uint64_t sl[] = { 0, 1, 40, 62, 79 };
+                  for (int q = 0; q < 5; q++) if (vh_case_begin("short-fragment-len%lu", (unsigned long)sl[q])) {
+                    vh_nontrivial();
+                    gbuf_t gb[32]; memset(gb, 0, sizeof gb);
+                    char **arr = (char **)(s.gptr.p + s.gptr.len) - s.n;
+                    for (int f = 0; f < s.n; f++) { uint8_t *p = gbuf_alloc(&gb[f], sl[q], GP_END); memcpy(p, enc_frag(&s, f), sl[q]); gbuf_readonly(&gb[f]); arr[f] = (char *)p; }
+                    char *out = NULL; uint64_t ol = 0; vh_op("liberasurecode_decode"); vh_transitions(2);
+                    int rc = liberasurecode_decode(s.desc, arr, s.n, sl[q], q & 1, &out, &ol);
+                    if (rc >= 0) { vh_violation("short-length-accepted", "decode with fragment_len=%lu returned %d", (unsigned long)sl[q], rc); if (out && ledger_has(out)) liberasurecode_decode_cleanup(s.desc, out); }
+                    uint8_t *ob = s.gout.p + s.gout.len - s.flen; vh_op("liberasurecode_reconstruct_fragment");
+                    rc = liberasurecode_reconstruct_fragment(s.desc, arr + 1, s.n - 1, sl[q], 0, (char *)ob);
+                    if (rc >= 0) vh_violation("short-length-accepted", "reconstruct with fragment_len=%lu returned %d", (unsigned long)sl[q], rc);
+                    for (int f = 0; f < s.n; f++) gbuf_free(&gb[f]);
+                  } }
                 if (vh_case_begin("encode-after-history")) {
                     vh_nontrivial();
                     char **d2, **p2; uint64_t fl2; vh_op("liberasurecode_encode"); vh_transitions(1);
